@@ -34,8 +34,8 @@ Proof.
   assert (Hcell : cell_ok D (atoms_of s)).
   { split.
     - intro E. rewrite E in Hvac. rewrite rweight_nil in Hvac. discriminate Hvac.
-    - intros p Hin. destruct (Hd p Hin) as (H1 & H2 & H3). repeat split; try assumption.
-      apply H3. rewrite forallb_forall in Hall. exact (Hall p Hin). }
+    - intros p Hin. destruct (Hd p Hin) as (H1 & H2 & H3).
+      split; [exact H1|]. split; [exact H2|]. apply H3. rewrite forallb_forall in Hall. exact (Hall p Hin). }
   destruct (all_some (map (compound_at D (atoms_of s) rho) ws)) as [v'|] eqn:Ev; [|discriminate].
   inversion H; subst v'. clear H.
   revert v Ev Hws. induction ws as [|w r IH]; intros v Ev Hws; cbn [map all_some] in Ev.
@@ -111,8 +111,8 @@ Theorem nsf_model_refines_spec_tables : forall s density natural_density ws v rh
 Proof.
   intros s density natural_density ws v rho Hws Hd Hrho Hpos H.
   apply (nsf_model_refines_spec the_nd s density natural_density ws v rho); try assumption.
-  intros p Hin. destruct (Hd p Hin) as [H1 H2]. rewrite the_nd_env. repeat split; try assumption.
-  intro Hdata. apply the_nd_ok. exact Hdata.
+  intros p Hin. destruct (Hd p Hin) as [H1 H2]. rewrite the_nd_env.
+  split; [exact H1|]. split; [exact H2|]. intro Hdata. apply the_nd_ok. exact Hdata.
 Qed.
 
 (* ------------------------------------------------------------------ full strength of the None clause *)
